@@ -60,7 +60,12 @@ class Lexer(object):
 
     @TOKEN(r'("(\\.|[^"\\])*")|(\'(\\.|[^\'\\])*\')')
     def t_STRING(self, t):
-        t.value = t.value.strip("\"'").encode().decode("unicode_escape")
+        try:
+            t.value = t.value[1:-1].encode("latin-1", "backslashreplace").decode("unicode_escape")
+        except UnicodeDecodeError as ex:
+            raise SyntaxError(
+                "Invalid escape sequence in string at position {0}: {1}".format(t.lexpos, ex.reason)
+            )
         return t
 
     @TOKEN(r"[\r\n]+")
